@@ -134,7 +134,7 @@ def run(prop, tier, replay=None):
             steps = []
             for e in events[s + 1:line]:
                 if e["ev"] != "Skipped":
-                    steps.append({k: e.get(k, 0) for k in ("ev", "k", "v", "rg", "rv", "t", "n")})
+                    steps.append({k: e.get(k, 0) for k in ("ev", "k", "v", "rg", "rv", "t", "n", "tks")})
             return steps
 
         for x in rep["violations"]:
